@@ -56,26 +56,12 @@ def _vec(vals, dtype="float64"):
     return numpy.array([_f(v) for v in vals], dtype=dtype)
 
 
-@contextlib.contextmanager
 def _deadline(seconds):
     """a call of the implementation that does not return is an implementation failure (TimeoutError), not a hang of
-    the check; only armed in the main thread"""
-    import signal
-    import threading
-    if threading.current_thread() is not threading.main_thread():
-        yield
-        return
-
-    def _raise(signum, frame):
-        raise TimeoutError(f"implementation did not return within {seconds} s")
-
-    old = signal.signal(signal.SIGALRM, _raise)
-    signal.setitimer(signal.ITIMER_REAL, seconds)
-    try:
-        yield
-    finally:
-        signal.setitimer(signal.ITIMER_REAL, 0)
-        signal.signal(signal.SIGALRM, old)
+    the check.  The budget is CPU time of the process (harness.core.cpu_deadline) with a generous wall-clock
+    backstop, so that machine load cannot turn a correct tree into a timeout."""
+    from harness.core import cpu_deadline
+    return cpu_deadline(seconds * 4, wall_factor=30)
 
 
 DIST_KW = {"core": ("objfn_minmax", "objfn_pseudoweight"),     # (sign keyword, line keyword)
